@@ -24,6 +24,8 @@ struct MExp {
   bool named = false;       // already named in a violation report (C04)
   bool maybe_named = false; // named only inside a sequence-mismatch text: 0 or 1 end-of-life report accepted
   bool orphan = false;      // one of its sequence objects was destroyed while it was registered
+  bool scoped = false;      // created with the scoped macro form: lives exactly as long as its C++ scope
+  unsigned line = 0;        // source line of the statement that created it (NAMED_ or scoped variant)
   int nseq = 0;
   int seq[3] = {-1, -1, -1};
   bool in_seq[3] = {false, false, false};
